@@ -241,7 +241,9 @@ impl Property for C06 {
          outline), else the mean of the points; None iff there is no coordinate. Checked: value within 16 ulp of the coordinate \
          magnitude + 1e-9 of the extent, result inside the exact convex hull (same tolerance), equivariance under the similarity \
          (implied: the oracle is evaluated in the lattice frame and mapped exactly). Non-trivial = members of >= 2 dimensions, or a \
-         polygon with holes, or a degenerate member."
+         polygon with holes, or a degenerate member. Sub-cases: slivers (ill-conditioned f64 triangles: finite, within 64 ulp of \
+         the hull), flat polygons with a flat hole on the same line, and tiny lengths (horizontal segments of length k * 2^-e, e in \
+         520..1000, at ordinary ordinates: the ordinate of the centroid is the length-weighted mean)."
             .into()
     }
     fn assumptions() -> Vec<String> {
